@@ -304,7 +304,11 @@ func bindHandle(in []byte) []byte {
 	api := bindAPI(o)
 	tsig, jsig, osig := typeSig(T), docSig(J), optsSig(o)
 	mk := func(kind, text, want, got string) bindBad {
-		return bindBad{Kind: kind, Type: tsig, Doc: jsig, Text: text, Old: oldName, Opts: osig, Want: want, Got: got, Feat: bindFeatures(T, J),
+		ft := bindFeatures(T, J)
+		if o["ue"] == true {
+			ft["o_ue"] = true
+		}
+		return bindBad{Kind: kind, Type: tsig, Doc: jsig, Text: text, Old: oldName, Opts: osig, Want: want, Got: got, Feat: ft,
 			Sig: kind + "|" + tsig + "|" + jsig}
 	}
 	oldV := func() reflect.Value {
